@@ -175,7 +175,12 @@ def run(ctx):
     ys = [n for n in walk_no_nested(rl.loop) if isinstance(n, ast.Yield)]
     ok = False
     if len(ys) == 1:
-        atoms = {"atom.element == 'H'": ('isH', True), "atom.element != 'H'": ('isH', False),
+        # the local that holds the Atom built from the record
+        avars = [st.targets[0].id for st in walk_no_nested(rl.atom_block) if isinstance(st, ast.Assign)
+                 and isinstance(st.targets[0], ast.Name) and isinstance(st.value, ast.Call)
+                 and (call_name(st.value) or '').split('.')[-1] == 'Atom']
+        avar = avars[0] if avars else 'atom'
+        atoms = {"%s.element == 'H'" % avar: ('isH', True), "%s.element != 'H'" % avar: ('isH', False),
                  'keep_protons': ('keep', True)}
         gs = [g for g in guards_of(ys[0], rl.atom_block) if g[2] == 'if'
               and g[0] is not rl.atom_block.test]
